@@ -733,6 +733,7 @@ class LoopMon:
         self.max = mx
         self.ver = ver
         self.limit = mx                # v5: min(receive-maximum of the last CONNACK (absent = 65535), configured limit)
+        self.wire_gen = {}             # tag -> number of failures before its publish / release was last written
         self.alias = {}                # v5: tag -> topic alias the user attached to the publish
         self.known = {}                # known-finding id -> text of the first occurrence in this history
         self.viol = []
@@ -902,7 +903,7 @@ class LoopMon:
                     tg, carried[0][0], a, arg))
                 self.nontrivial.add("v5-alias-replay-refused")
             else:
-                fresh = [tg for tg in self.sent if tg not in self.st and self.alias.get(tg) == a]
+                fresh = [tg for tg in self.sent[self.excuse_point:] if tg not in self.st and self.alias.get(tg) == a]
                 if fresh:
                     self.st[fresh[0]] = ["N", 0]
                     self.nontrivial.add("v5-alias-refused-first-attempt")
@@ -983,11 +984,21 @@ class LoopMon:
                     if x[1] != i:
                         self.v("C11", "%s retransmitted with id %d, originally %d" % (w, i, x[1]))
                 else:
-                    ow = self.owed()
-                    if self.resumed and ow and self.sent_gen.get(tag, -1) == self.gen:
-                        self.v("C11", "publish %s, issued by the user after the failure, sent on the resumed session before the retransmission of %s" % (w, ow))
+                    ow = [o for o in self.owed() if self.wire_gen.get(o[0], -1) < self.sent_gen.get(tag, -1)]
+                    if self.resumed and ow and x is None:
+                        # retransmit first, over any number of failures: what earlier connections left
+                        # unacknowledged (state.clean(), then what was still pending from an unfinished
+                        # replay) goes out before every publish that has never been on the wire — whether
+                        # the user issued it after the last failure or during an earlier, interrupted replay.
+                        # Compared are the owed ones that were last on the wire BEFORE the connection during
+                        # (or after) which this publish was issued: those were ahead of it in pending all
+                        # along.  (One written on the same connection may legitimately follow it: a parked
+                        # publish recorded by an ack inside an aborted read batch was "sent" for the client.)
+                        self.v("C11", "publish %s, never sent before (issued by the user after failure number %d of %d), was written on the resumed session before the retransmission of %s" % (
+                            w, self.sent_gen.get(tag, -1), self.gen, ow))
                     self.st[tag] = ["U", i]
                 self.cur[i] = tag
+                self.wire_gen[tag] = self.gen
                 if tag not in self.first:
                     self.first.append(tag)
                 pos = self.first.index(tag)
@@ -1012,6 +1023,7 @@ class LoopMon:
                 for tg, x in self.st.items():
                     if x[0] == "R" and x[1] == i:
                         self.cur[i] = tg
+                        self.wire_gen[tg] = self.gen
             while deferred and self.apply(*deferred[0]):
                 deferred.pop(0)
 
@@ -1199,6 +1211,10 @@ def gen_loop_history(rng, model, mx, style="mixed", ver="4"):
                 connect(1)
                 for _ in range(rng.below(4)):          # replay partly ...
                     a = do("POLL"); note(a)
+                if rng.chance(1, 2):                   # ... the user goes on publishing (those wait in the channel) ...
+                    for _ in range(1 + rng.below(2)):
+                        tag += 1
+                        do("SEND PUB 1 0 %d %d" % (tag % 50, tag))
                 if rng.chance(1, 2):                   # ... and fail again before any PUBACK
                     hangup(); a = drain()
                     if a.startswith("ERROR"):
@@ -1269,8 +1285,11 @@ def gen_loop_history(rng, model, mx, style="mixed", ver="4"):
         if a.startswith("ERROR") or a.startswith("NOCONN"):
             unacked.clear(); del rel[:]
             a = connect(0 if rng.chance(1, 6) else 1)
-            if rng.chance(1, 5):      # second failure before pending is drained
+            if rng.chance(1, 5):      # second failure before pending is drained, maybe with user requests in the channel
                 note(do("POLL"))
+                if rng.chance(1, 2):
+                    tag += 1
+                    do("SEND PUB %d 0 %d %d" % (2 if rng.chance(1, 3) else 1, tag % 50, tag))
                 do("DROP"); a = drain()
                 if a.startswith("ERROR"):
                     unacked.clear(); del rel[:]
@@ -1397,6 +1416,77 @@ def loop_renegotiate_family(model):
                             yield mx, ops, answers
 
 
+def loop_replay_cut_family(model, ver):
+    """retransmit first over REPEATED failures: n publishes (the last one QoS2 or not) unacknowledged,
+    failure, resume, the replay is cut after r retransmissions (POLL pacing) while the user has put u
+    new publishes into the channel (pending_throttle 300 ms holds the rest of the replay back, so the failure
+    that follows is not racing the request arm), second failure (optionally a third, after r2 more), resume, all
+    acknowledged in order; max_inflight from below n to above n+u"""
+    v5 = ver == "5"
+    for mx in (2, 3, 10):
+        for n in (2, 3):
+            for q2 in (0, 1):
+                for r in range(0, n + 1):
+                    for u in (1, 2):
+                        for r2 in (None, 0, 1):
+                            ops, answers = [], []
+
+                            def do(op):
+                                model.stdin.write(op + "\n"); model.stdin.flush()
+                                x = model.stdout.readline().rstrip("\n")
+                                ops.append(op); answers.append(x)
+                                return x
+
+                            wire = []
+
+                            def poll():
+                                x = do("POLLT 301")
+                                m = LOOP_WIRE.match(x)
+                                if m:
+                                    wire.extend(w for w in m.group(3).split() if w.startswith(("PUB:", "PUBREL:")))
+                                return x
+
+                            def settle():
+                                x = "IDLE"
+                                for _ in range(14):
+                                    x = poll()
+                                    if x.startswith(("IDLE", "ERROR") + LOOP_CUT):
+                                        break
+                                return x
+
+                            acc = "ACCEPT 1 - 10" if v5 else "ACCEPT 1"
+                            do("%s %d 0 300" % ("LNEW5" if v5 else "LNEW", mx)); do(acc); settle()
+                            tag = 0
+                            for _ in range(n):
+                                tag += 1
+                                do("SEND PUB %d 0 1 %d" % (2 if q2 and tag == n else 1, tag))
+                            settle()
+                            do("DROP"); settle(); del wire[:]
+                            do(acc); poll()
+                            for _ in range(r):
+                                poll()
+                            for _ in range(u):
+                                tag += 1
+                                do("SEND PUB 1 0 1 %d" % tag)
+                            do("DROP"); settle(); del wire[:]
+                            if r2 is not None:
+                                do(acc); poll()
+                                for _ in range(r2):
+                                    poll()
+                                tag += 1
+                                do("SEND PUB 1 0 1 %d" % tag)
+                                do("DROP"); settle(); del wire[:]
+                            do(acc); settle()
+                            for _ in range(4 * (n + u + 1)):
+                                if not wire:
+                                    break
+                                f = wire.pop(0).split(":")
+                                do("NET PUBCOMP %s" % f[1] if f[0] == "PUBREL" else ("NET PUBACK %s" % f[2] if f[1] == "1" else "NET PUBREC %s" % f[2]))
+                                settle()
+                            do("FINISH")
+                            yield mx, ops, answers
+
+
 def loop_run(ctx, mexe):
     """end-to-end: the real EventLoop, v4 and v5 (harness bin clientloop) vs Client/Loop.v and
     Client/Loop5.v, plus the loop monitors on the implementation's answers"""
@@ -1437,6 +1527,9 @@ def loop_run(ctx, mexe):
                 keep(ver, mx, "exhaustive-max%d-moves%d" % (mx, k), ops, mans)
     for mx, ops, mans in loop_renegotiate_family(model):
         keep("5", mx, "renegotiate-then-second-failure", ops, mans)
+    for ver in VERSIONS:
+        for mx, ops, mans in loop_replay_cut_family(model, ver):
+            keep(ver, mx, "replay-cut-by-second-failure", ops, mans)
     model.stdin.close(); model.wait()
     kdir = os.path.join(lib.ROOT, "corpus", "known")
     for f in sorted(os.listdir(kdir)) if os.path.isdir(kdir) else []:
@@ -1547,6 +1640,17 @@ def c18_scenarios(ctx):
                 for silent in (1, 2, 3, 5):              # the broker goes silent from that ping on
                     ka(ver, K, [K // 8, 7 * K // 8, 0], silent, traffic, period, hz(silent + 4))
             ka(ver, K, [K], 0, "none", 1000, hz(6), race=True)            # reply at exactly KA: a race, not compared
+            # the inflight window stays FULL (max_inflight 1 / 2, that many QoS1 publishes never acknowledged),
+            # or a publish stays parked on a packet id collision, across every keep-alive expiry: the ping
+            # does not wait for flow control
+            for traffic in ("full1", "full2"):
+                for d in (0, K // 8, 7 * K // 8):
+                    ka(ver, K, [d], 0, traffic, 1000, hz(5))
+                for silent in (1, 2, 3):
+                    ka(ver, K, [K // 8], silent, traffic, 1000, hz(silent + 3))
+                ka(ver, K, [K + 1], 0, traffic, 1000, hz(5))
+            for silent in (0, 1, 2):
+                ka(ver, K, [K // 8], silent, "coll", 1000, hz(5))
     # keep-alive 0 (v4 option; v5: assigned by the server) over a long virtual time
     for traffic in ("none", "up", "down"):
         ka("4", 0, [100], 0, traffic, 977, 3_600_000)
@@ -1643,7 +1747,19 @@ def c18_monitor(line, spec, ans):
         if pings or err:
             v.append("keep-alive 0 yet %s" % ans)
         return v, trig
-    if spec["traffic"] != "none":
+    if spec["traffic"] in ("full1", "full2"):
+        trig.add("window-full-across-keep-alive-expiry")
+    elif spec["traffic"] == "coll":
+        # the carve-out the property names: a publish parked on a packet id collision for two timer
+        # firings is reported as CollisionTimeout at the second one, answered pings or not; the first
+        # ping still goes out on time
+        trig.add("collision-parked-across-keep-alive-expiry")
+        if pings != [c + K]:
+            v.append("collision parked: expected exactly one PINGREQ, at %d, got %s" % (c + K, pings))
+        if err != "CollisionTimeout" or end != c + 2 * K:
+            v.append("collision parked since %d: expected CollisionTimeout at the second timer firing (%d), got %s at %d" % (c, c + 2 * K, err or "no error", end))
+        return v, trig
+    elif spec["traffic"] != "none":
         trig.add("one-way-traffic-" + spec["traffic"])
     # at least one PINGREQ per interval: the first KA after the connection, then every KA
     prev = c
@@ -1744,7 +1860,8 @@ def run_c18(ctx):
             divs.append((line, a, mo))
     ctx.cov["rule"] = ("keep-alive scenarios on the real rumqttc::EventLoop (v4 and v5) over the in-memory transport under paused tokio time, polled continuously, against a scripted broker; "
                        "KA in {1 s, 5 s, 60 s} (v5: 5 s, 60 s, and server-assigned 0 / 2 / 3 s); reply delay on the grid {0, KA/8, ..., 7KA/8}, KA-1, and too late (KA+1 .. 5KA/2); broker silent from ping 1/2/3/5 on; "
-                       "user-only and broker-only QoS0 traffic at periods unrelated to KA; keep-alive 0 over one hour of virtual time; random delay mixes; connect handshake never / before / after connection_timeout. "
+                       "user-only and broker-only QoS0 traffic at periods unrelated to KA; the inflight window full (max_inflight 1 / 2, that many QoS1 publishes never acknowledged) or a publish parked on a "
+                       "packet id collision across every keep-alive expiry, with an answering, a late and a silent broker; keep-alive 0 over one hour of virtual time; random delay mixes; connect handshake never / before / after connection_timeout. "
                        "Each scenario also runs on the extracted Coq model (Client/KeepAlive.v) and the timelines are compared. non-trivial = scenario with a silent or late broker, one-way traffic, keep-alive 0 or a connect timeout; distinct scenario lines counted.")
     ctx.cov["evaluations"] = len(sc)
     ctx.cov["traces_validated_against_impl"] = len(sc)
@@ -2088,7 +2205,8 @@ def run(ctx):
                             "in one poll; throttle: pending_throttle > 0 with broker writes during the wait), max_inflight in {1,2,3,4,5}, plus the exhaustive families: every sequence of %d moves over "
                             "{publish QoS1, publish QoS2, PUBACK 1, PUBACK 2, PUBREC 1, PUBCOMP 1, drop+resume, drop+new session} (v5 also: PUBREC 1 with a failure reason, drop+resume with receive-maximum 1, "
                             "server DISCONNECT, publish QoS1 with topic alias 5, drop+resume with topic-alias-maximum 3) for max_inflight 1 and 2, polled to idle after each move; v5 also the family 'receive-maximum lowered below a held id, then a second failure': max_inflight 2-4, all in flight, "
-                            "0..max-1 acknowledged, failure, resume with receive-maximum 1..max-1, 0-2 acks, second failure, resume, all acknowledged. v5 only: every CONNACK carries a receive-maximum from {absent, 1, 2, max, max+1, 65535, rarely 0}, "
+                            "0..max-1 acknowledged, failure, resume with receive-maximum 1..max-1, 0-2 acks, second failure, resume, all acknowledged; both versions the family 'replay cut by a second failure': "
+                            "2-3 unacknowledged publishes, failure, resume, 0..n retransmissions, 1-2 new user publishes in the channel, second failure (optionally a third after 0-1 more), resume, acks in order, max_inflight 2/3/10. v5 only: every CONNACK carries a receive-maximum from {absent, 1, 2, max, max+1, 65535, rarely 0}, "
                             "acks carry reason codes now and then, the server sometimes sends DISCONNECT instead of closing, every CONNACK carries a topic-alias-maximum from {10, 3, absent} and (mixed style, exhaustive families) some publishes carry a topic alias. "
                             "A history is cut where both the network and the request arm of select! are ready (tokio picks at random)" % (4 if th else 3))
     if r["driver_failure"]:
